@@ -40,6 +40,24 @@ def fview(nf):
     return out
 
 
+def observe_all(s2):
+    """the views of a derived Series (what a user looks at after an edit)"""
+    out = {}
+    obs = {
+        "rows": lambda: weak_rows(export.rows_view(s2.array)),
+        "list_lengths": lambda: [int(x) for x in s2.nest.list_lengths],
+        "flat_length": lambda: int(s2.nest.flat_length),
+        "list_index": lambda: [int(x) for x in s2.array.get_list_index()],
+        "to_flat": lambda: export.flat_df_view(s2.nest.to_flat()),
+        "list_struct": lambda: ls_rows(s2.array.chunked_list_struct_array, export.dtype_ty(s2.dtype)),
+        "second_edit": lambda: sview(s2.nest.with_flat_field("zz", np.arange(int(s2.nest.flat_length), dtype=np.int64))),
+    }
+    for k, f in obs.items():
+        r = call_real(f)
+        out[k] = r if "ok" in r else {"err": True}
+    return out
+
+
 def build_battery(content, labels, seed):
     """operations with arguments fixed by the content (identical for every layout)"""
     rng = random.Random(seed)
@@ -91,6 +109,27 @@ def build_battery(content, labels, seed):
             a[pos] = df_of_row(row, ty)
             return colres(a)
         add("setitem", setit)
+        # several different tables at several positions (targets in different chunks of a chunked layout)
+        k = rng.randint(2, min(n, 4)) if n >= 2 else 1
+        poss = sorted(rng.sample(range(n), k))
+        many = [gen.rand_row(rng, ty, p_missing=0.2) for _ in poss]
+
+        def setmany(s, how):
+            a = s.array.copy()
+            vals = [df_of_row(r, ty) for r in many]
+            if how == "ints":
+                a[np.array(poss, dtype=np.int64)] = vals
+            elif how == "mask":
+                m = np.zeros(n, dtype=bool)
+                m[poss] = True
+                a[m] = vals
+            else:
+                a[poss[0]:poss[-1] + 1] = [df_of_row(r, ty) for r in
+                                           (many + [gen.rand_row(random.Random(seed + 1), ty, p_missing=0.0)] * n)[:poss[-1] + 1 - poss[0]]]
+            return colres(a)
+        add("setitem_many_ints", lambda s: setmany(s, "ints"))
+        add("setitem_many_mask", lambda s: setmany(s, "mask"))
+        add("setitem_many_slice", lambda s: setmany(s, "slice"))
     t = rng.choice(gen.TYNAMES)
     cells = [gen.rand_cell(rng, t) for _ in range(total)]
     add("with_flat_field", lambda s: sview(s.nest.with_flat_field("z", gen.flat_array(cells, t))))
@@ -109,6 +148,19 @@ def build_battery(content, labels, seed):
         s2.nest[f0] = gen.flat_array(cells0, t0)
         return sview(s2)
     add("nest_setitem", nest_set)
+    # what the edited objects look like through every view (two-step histories)
+    add("with_flat_field.then", lambda s: observe_all(s.nest.with_flat_field("z", gen.flat_array(cells, t))))
+    add("with_flat_field_existing.then", lambda s: observe_all(s.nest.with_flat_field(f0, gen.flat_array(cells, t))))
+    add("with_list_field.then", lambda s: observe_all(s.nest.with_list_field("z", gen.mk_list_array(lists, t))))
+    add("with_filled_field.then", lambda s: observe_all(s.nest.with_filled_field("z", gen.flat_array(per_row, t))))
+    if len(names) > 1:
+        add("without_field.then", lambda s: observe_all(s.nest.without_field(names[0])))
+
+    def nest_set_then(s):
+        s2 = pd.Series(s.array.copy(), index=s.index, name=s.name)
+        s2.nest[f0] = gen.flat_array(cells0, t0)
+        return observe_all(s2)
+    add("nest_setitem.then", nest_set_then)
     # frame level
     num = next(((nm, tt) for nm, tt in ty if tt in ("int64", "double")), None)
 
@@ -133,6 +185,17 @@ def build_battery(content, labels, seed):
         nf["nest.z"] = gen.flat_array(cells, t)
         return fview(nf)
     add("frame_setitem", frame_set)
+
+    def frame_set_then(s):
+        nf = frame(s)
+        nf["nest.z"] = gen.flat_array(cells, t)
+        out = {"obs": observe_all(nf["nest"])}
+        for nm, f in (("query", lambda: fview(nf.query("nest.z == nest.z"))), ("sort", lambda: fview(nf.sort_values("nest.z"))),
+                      ("dropna", lambda: fview(nf.dropna(subset="nest.z")))):
+            r = call_real(f)
+            out[nm] = r if "ok" in r else {"err": True}
+        return out
+    add("frame_setitem.then", frame_set_then)
 
     def red(s):
         calls = []
